@@ -3,6 +3,7 @@ import TantivyModel.Proofs.ReaderSeq
 import TantivyModel.Proofs.ReaderPub
 import TantivyModel.Proofs.Generations
 import TantivyModel.Proofs.ReaderProgress
+import TantivyModel.Proofs.ReaderMutex
 /-!
 # C05 — Searchers are immutable snapshots; readers only ever see whole commits
 
@@ -123,6 +124,8 @@ theorem C05_published_handles_fixed (d : Disc) (s : St) (e : Ev) (r : Rid)
   | gcList l => simp [step, searcherOf, hp]
   | gcRelease => simp [step, searcherOf, hp]
   | gcDelete p => simp [step, searcherOf, hp]
+  | mLock r' => simp [step, searcherOf, hp]
+  | mUnlock r' => simp [step, searcherOf, hp]
 
 /-- the excluded design: a component resolved by path at observation time is *not* a snapshot —
 a later GC delete changes what it returns -/
@@ -334,6 +337,24 @@ theorem C05_reload_can_always_complete (t : List Ev) (hv : valid full t = true) 
     rw [hv', h1]; rfl
   · rw [run_append]; exact h2
 
+/-- The hypothesis `sequential ρ` is not needed as such: it follows from the mutual exclusion of
+the reader's reload mutex and the *local* shape of `reload()` (take the guard, load, publish,
+drop the guard) — the shape `C05_reloads_of_one_reader_serialised` reads off the source. -/
+theorem C05_mutex_gives_sequential (ρ : Nat) (t : List Ev) (hv : valid full t = true)
+    (hm : mutexDisciplined ρ t = true) : sequential ρ t = true :=
+  sequential_of_mutex ρ t hv hm
+
+/-- reloads under the reload mutex publish non-decreasing commits (no global hypothesis) -/
+theorem C05_reloads_monotone_under_mutex (ρ : Nat) (t : List Ev) (hv : valid full t = true)
+    (hm : mutexDisciplined ρ t = true) : List.Pairwise (· ≤ ·) (pubsOf ρ (run init t)) :=
+  C05_sequential_reloads_monotone ρ t hv (sequential_of_mutex ρ t hv hm)
+
+/-- … and `searcher()` never moves back -/
+theorem C05_served_commit_monotone_under_mutex (ρ : Nat) (t u : List Ev)
+    (hv : valid full (t ++ u) = true) (hm : mutexDisciplined ρ (t ++ u) = true) (a b : Nat)
+    (ha : served ρ (run init t) = some a) (hb : served ρ (run init (t ++ u)) = some b) : a ≤ b :=
+  C05_served_commit_monotone ρ t u hv (sequential_of_mutex ρ (t ++ u) hv hm) a b ha hb
+
 /-! ### the main theorems with the discipline read off the source instead of assumed -/
 
 theorem C05_reload_whole_commit_of_source (t : List Ev) (hv : valid codeDisc t = true) :
@@ -377,6 +398,22 @@ example :
     valid full t = true ∧ (run init t).lock = some (.reader (7, 0)) ∧
       finish (run init t) (7, 0) 1 =
         [.openFile (7, 0) 2, .release (7, 0), .warm (7, 0), .publish (7, 0)] := by
+  decide
+
+/-- two reloads of reader 3 under its mutex, racing a writer; and the overlapping schedule of
+`C05_concurrent_reloads_counterexample` cannot be completed with mutex events: the second
+`mLock` is refused while the first reload holds the mutex -/
+example :
+    let t : List Ev :=
+      [.create 1 10, .saveMeta [1], .mLock (3, 0), .acquire (3, 0), .loadMeta (3, 0),
+       .openFile (3, 0) 1, .release (3, 0), .create 2 20, .saveMeta [1, 2], .warm (3, 0),
+       .publish (3, 0), .mUnlock (3, 0),
+       .mLock (3, 1), .acquire (3, 1), .loadMeta (3, 1), .openFile (3, 1) 2, .openFile (3, 1) 1,
+       .release (3, 1), .warm (3, 1), .publish (3, 1), .mUnlock (3, 1)]
+    valid full t = true ∧ mutexDisciplined 3 t = true ∧ pubsOf 3 (run init t) = [1, 2] ∧
+    mutexDisciplined 0 [.create 1 10, .saveMeta [1], .mLock (0, 0), .acquire (0, 0),
+      .loadMeta (0, 0), .openFile (0, 0) 1, .release (0, 0), .create 2 20, .saveMeta [1, 2],
+      .mLock (0, 1), .acquire (0, 1)] = false := by
   decide
 
 /-- a publication without warming is what `warmedBeforePublish` excludes -/
